@@ -663,3 +663,29 @@ impl Lmdb {
         key
     }
 }
+
+// Verification hook (cargo feature `verif` only): what the six query indexes hold, read
+// back from LMDB itself in its own iteration order.
+#[cfg(feature = "verif")]
+impl Lmdb {
+    pub(crate) fn verif_dump_keys(&self) -> Result<Vec<(&'static str, Vec<u8>)>, Error> {
+        let txn = self.read_txn()?;
+        let mut out: Vec<(&'static str, Vec<u8>)> = Vec::new();
+        let tables: [(&'static str, &Database<Bytes, U64<NativeEndian>>); 6] = [
+            ("ci", &self.ci_index),
+            ("tc", &self.tc_index),
+            ("ac", &self.ac_index),
+            ("akc", &self.akc_index),
+            ("atc", &self.atc_index),
+            ("ktc", &self.ktc_index),
+        ];
+        for (name, db) in tables {
+            for result in db.iter(&txn)? {
+                let (key, _offset) = result?;
+                out.push((name, key.to_vec()));
+            }
+        }
+        Ok(out)
+    }
+}
+
